@@ -67,6 +67,9 @@ Consume ==
        THEN /\ cands' = {Empty(e.maxlen, e.dual)} /\ dead' = FALSE /\ Note(e, {})
             /\ tstats' = [tstats EXCEPT !.hist = @ + 1]
        ELSE IF dead THEN UNCHANGED <<cands, dead, tfailed, tnfail, tstats>>
+       ELSE IF "raised" \in DOMAIN e
+       THEN \* the histories are generated inside the operations' preconditions: an exception is never an allowed outcome
+            /\ Note(e, {"OpRaises"}) /\ dead' = TRUE /\ UNCHANGED <<cands, tstats>>
        ELSE \E S \in {IF e.op \in {"maxg", "maxl"} /\ (\E s \in cands : OverflowsOnPop(s, IF e.op = "maxg" THEN "G" ELSE "L"))
                        THEN {Overflow} ELSE Step(e, cands)} :
               IF S = {}
